@@ -263,6 +263,22 @@ def run_case(scn, ctx):
             require(got == want, "create_digest", lambda: "manifest %r != reference %r" % (got, want), res)
             res = w.verify("R")
             require(res.exit_code == 0, "verify_exit", "verify on the untouched file: " + res.brief(), res)
+            # two more generations with other format combinations (recorded formats re-verified, new ones added): every
+            # digest any generation records for the file is the standard digest of the same bytes
+            rest = [f for f in CLI if f not in cli]
+            for gi, fs in enumerate([list(reversed(cli)) + rest[:1], rest[1:3] + cli[:1]]):
+                if not fs:
+                    continue
+                res = w.create("R", formats=fs)
+                require(res.exit_code == 0 and res.exc is None, "create_exit", "generation %d with formats %s on the untouched tree: %s" % (gi + 2, fs, res.brief()), res)
+                recs = [x for x in w.read_history("R")[-1][2]["records"] if x["kind"] == "file" and x["path"] == scn["name"]]
+                require(len(recs) == 1, "create_record", "generation %d records: %r" % (gi + 2, recs), res)
+                for e in recs[0]["entries"]:
+                    want_d = refhash.digest(e["fmt"], data)
+                    require(e["digest"] == want_d and e["action"] in ("verified", "original"), "create_digest",
+                            "generation %d %s: recorded %s (%s), reference %s" % (gi + 2, e["fmt"], e["digest"], e["action"], want_d), res)
+                ref.update({e["fmt"]: e["digest"] for e in recs[0]["entries"]})
+            ctx.event("multi_generation_digests")
             # a one-bit change must be seen, wherever it is (first byte, chunk boundary, last byte)
             if n > 0:
                 pos = scn["cuts"][0] % n if scn["cuts"] else n - 1
